@@ -31,14 +31,14 @@ theorem sliceStart_range (n step : Int) (s : Option Int) (hn : 0 ≤ n) :
     (0 < step → 0 ≤ sliceStart n step s ∧ sliceStart n step s ≤ n) ∧
     (step < 0 → -1 ≤ sliceStart n step s ∧ sliceStart n step s ≤ n - 1) := by
   cases s with
-  | none => unfold sliceStart; constructor <;> intro hs <;> (try split) <;> omega
+  | none => simp only [sliceStart]; constructor <;> intro hs <;> (try split) <;> omega
   | some b => exact clampBound_range n step b hn
 
 theorem sliceStop_range (n step : Int) (s : Option Int) (hn : 0 ≤ n) :
     (0 < step → 0 ≤ sliceStop n step s ∧ sliceStop n step s ≤ n) ∧
     (step < 0 → -1 ≤ sliceStop n step s ∧ sliceStop n step s ≤ n - 1) := by
   cases s with
-  | none => unfold sliceStop; constructor <;> intro hs <;> (try split) <;> omega
+  | none => simp only [sliceStop]; constructor <;> intro hs <;> (try split) <;> omega
   | some b => exact clampBound_range n step b hn
 
 /-- every position a slice selects exists: `0 ≤ start + j·step < n` for `j < len` -/
@@ -91,7 +91,7 @@ theorem pySlice_length {α} (xs : List α) (a b c : Option Int) (ys : List α)
     (h : pySlice xs a b c = some ys) :
     ys.length = sliceLen (sliceStart xs.length (c.getD 1) a) (sliceStop xs.length (c.getD 1) b)
       (c.getD 1) := by
-  unfold pySlice at h
+  simp only [pySlice] at h
   split at h
   · cases h
   · rename_i hst
@@ -110,7 +110,7 @@ theorem filterMap_range_get {α} (xs : List α) :
     rw [List.range_succ, List.filterMap_append, ih (by omega)]
     simp only [List.filterMap_cons, List.filterMap_nil]
     rw [List.getElem?_eq_getElem (show k < xs.length by omega)]
-    rw [List.take_succ, List.getElem?_eq_getElem (show k < xs.length by omega)]
+    rw [List.take_add_one, List.getElem?_eq_getElem (show k < xs.length by omega)]
     rfl
 
 /-- `xs[:]` is `xs` -/
@@ -128,7 +128,531 @@ theorem pySlice_full {α} (xs : List α) : pySlice xs none none none = some xs :
       · simp
       · intro i h1 h2; simp
     · have : xs.length = 0 := by omega
-      simp [hn, this]
+      simp [this]
   rw [hidx, filterMap_range_get xs xs.length (Nat.le_refl _), List.take_length]
+
+/-! ### the sequence operations on the flat tuple -/
+
+section seq
+variable {α : Type}
+
+def flatCells (steps : List (String × α)) : List (Cell α) :=
+  steps.flatMap (fun s => [Cell.op s.1, Cell.arg s.2])
+
+theorem flatOf_eq (root : String) (steps : List (String × α)) :
+    flatOf root steps = .root root :: flatCells steps := rfl
+
+theorem flatCells_cons (s : String × α) (r : List (String × α)) :
+    flatCells (s :: r) = .op s.1 :: .arg s.2 :: flatCells r := by
+  simp [flatCells, List.flatMap_cons]
+
+theorem flatCells_length (steps : List (String × α)) : (flatCells steps).length = 2 * steps.length := by
+  induction steps with
+  | nil => rfl
+  | cons s r ih => rw [flatCells_cons]; simp [ih]; omega
+
+theorem everyOther_flatCells (steps : List (String × α)) :
+    everyOther (flatCells steps) = steps.map (fun s => Cell.op s.1) := by
+  induction steps with
+  | nil => rfl
+  | cons s r ih => rw [flatCells_cons]; simp [everyOther, ih]
+
+theorem everyOther_drop1_flatCells (steps : List (String × α)) :
+    everyOther ((flatCells steps).drop 1) = steps.map (fun s => Cell.arg s.2) := by
+  induction steps with
+  | nil => rfl
+  | cons s r ih =>
+    rw [flatCells_cons]
+    simp only [List.drop_succ_cons, List.drop_zero, List.map_cons]
+    cases r with
+    | nil => rfl
+    | cons s' r' =>
+      rw [flatCells_cons] at ih ⊢
+      simp only [List.drop_succ_cons, List.drop_zero] at ih
+      simp only [everyOther, ih]
+
+theorem pLen_flatOf (root : String) (steps : List (String × α)) :
+    pLen (flatOf root steps) = steps.length := by
+  simp [pLen, flatOf_eq, flatCells_length]
+
+theorem pValues_flatOf (root : String) (steps : List (String × α)) :
+    pValues (flatOf root steps) = steps.map (fun s => Cell.arg s.2) := by
+  simp only [pValues, flatOf_eq]
+  rw [show (Cell.root root :: flatCells steps).drop 2 = (flatCells steps).drop 1 by simp]
+  exact everyOther_drop1_flatCells steps
+
+theorem pItems_flatOf (root : String) (steps : List (String × α)) :
+    pItems (flatOf root steps) = steps.map (fun s => (Cell.op s.1, Cell.arg s.2)) := by
+  simp only [pItems, flatOf_eq]
+  rw [show (Cell.root root :: flatCells steps).drop 2 = (flatCells steps).drop 1 by simp,
+    show (Cell.root root :: flatCells steps).drop 1 = flatCells steps by simp,
+    everyOther_flatCells, everyOther_drop1_flatCells]
+  induction steps with
+  | nil => rfl
+  | cons s r ih => simp [ih]
+
+theorem rebuild_flatOf (root : String) (steps st : List (String × α)) :
+    rebuild (flatOf root steps) (st.map (fun s => (Cell.op s.1, Cell.arg s.2))) = flatOf root st := by
+  simp [rebuild, flatOf_eq, flatCells, List.flatMap_map]
+
+theorem pGetSlice_flatOf (root : String) (steps : List (String × α)) (a b c : Option Int) :
+    pGetSlice (flatOf root steps) a b c = (pySlice steps a b c).map (flatOf root) := by
+  simp only [pGetSlice, pItems_flatOf, pySlice_map, Option.map_map]
+  cases pySlice steps a b c with
+  | none => rfl
+  | some st => simp [rebuild_flatOf]
+
+theorem pGetIdx_flatOf (root : String) (steps : List (String × α)) (i : Int) :
+    pGetIdx (flatOf root steps) i =
+      match pyIndexNat steps.length i with
+      | some j => steps[j]?.map (fun s => flatOf root [s])
+      | none => none := by
+  simp only [pGetIdx, pItems_flatOf, List.length_map]
+  cases pyIndexNat steps.length i with
+  | none => rfl
+  | some j =>
+    simp only [List.getElem?_map, Option.map_map]
+    cases steps[j]? with
+    | none => rfl
+    | some s =>
+      have := rebuild_flatOf root steps [s]
+      simp only [List.map_cons, List.map_nil] at this
+      simp [this]
+
+theorem flatCells_inj : ∀ (a b : List (String × α)), flatCells a = flatCells b → a = b := by
+  intro a
+  induction a with
+  | nil =>
+    intro b h
+    cases b with
+    | nil => rfl
+    | cons s r => rw [flatCells_cons] at h; simp [flatCells] at h
+  | cons s r ih =>
+    intro b h
+    cases b with
+    | nil => rw [flatCells_cons] at h; simp [flatCells] at h
+    | cons s' r' =>
+      rw [flatCells_cons, flatCells_cons] at h
+      simp only [List.cons.injEq, Cell.op.injEq, Cell.arg.injEq] at h
+      obtain ⟨h1, h2, h3⟩ := h
+      rw [ih r' h3]
+      cases s; cases s'; simp_all
+
+theorem flatOf_inj (r r' : String) (a b : List (String × α)) :
+    flatOf r a = flatOf r' b ↔ r = r' ∧ a = b := by
+  constructor
+  · intro h
+    simp only [flatOf_eq, List.cons.injEq, Cell.root.injEq] at h
+    exact ⟨h.1, flatCells_inj a b h.2⟩
+  · rintro ⟨rfl, rfl⟩; rfl
+
+theorem flatCells_take (steps : List (String × α)) (k : Nat) :
+    (flatCells steps).take (2 * k) = flatCells (steps.take k) := by
+  induction steps generalizing k with
+  | nil => simp [flatCells]
+  | cons s r ih =>
+    cases k with
+    | zero => simp [flatCells]
+    | succ k =>
+      rw [flatCells_cons, show 2 * (k + 1) = (2 * k + 1) + 1 by omega]
+      simp only [List.take_succ_cons]
+      rw [ih k, flatCells_cons]
+
+theorem pStartswith_flatOf [DecidableEq α] (r r' : String) (a b : List (String × α)) :
+    pStartswith (flatOf r a) (flatOf r' b) = (decide (r = r') && b.isPrefixOf a) := by
+  simp only [pStartswith, flatOf_eq, List.length_cons, flatCells_length]
+  rw [show 2 * b.length + 1 = (2 * b.length) + 1 by omega, List.take_succ_cons, flatCells_take]
+  have hiff : (Cell.root r :: flatCells (a.take b.length) = Cell.root r' :: flatCells b) ↔
+      (r = r' ∧ b <+: a) := by
+    constructor
+    · intro h
+      simp only [List.cons.injEq, Cell.root.injEq] at h
+      refine ⟨h.1, ?_⟩
+      have := flatCells_inj _ _ h.2
+      rw [List.prefix_iff_eq_take]; exact this.symm
+    · rintro ⟨rfl, hp⟩
+      rw [List.prefix_iff_eq_take] at hp
+      rw [← hp]
+  by_cases h : (r = r' ∧ b <+: a)
+  · have h' := hiff.mpr h
+    rw [decide_eq_true h']
+    simp [h.1, List.isPrefixOf_iff_prefix.mpr h.2]
+  · have h' : ¬ _ := fun hh => h (hiff.mp hh)
+    simp only [h', decide_false]
+    by_cases hr : r = r'
+    · have : ¬ b <+: a := fun hp => h ⟨hr, hp⟩
+      have : b.isPrefixOf a = false := by
+        cases hb : b.isPrefixOf a with
+        | false => rfl
+        | true => exact absurd (List.isPrefixOf_iff_prefix.mp hb) this
+      simp [this]
+    · simp [hr]
+
+theorem unflat_flatOf (root : String) (steps : List (String × α)) :
+    unflat (flatOf root steps) = some (root, steps) := by
+  simp only [unflat, flatOf_eq]
+  have : ∀ (st : List (String × α)), unflat.go (flatCells st) = some st := by
+    intro st
+    induction st with
+    | nil => rfl
+    | cons s r ih => rw [flatCells_cons]; simp [unflat.go, ih]
+  rw [this]; rfl
+
+theorem argsOf_map (steps : List (String × α)) :
+    argsOf (steps.map (fun s => Cell.arg s.2)) = some (steps.map (·.2)) := by
+  induction steps with
+  | nil => rfl
+  | cons s r ih => simp only [argsOf, List.map_cons, List.foldr_cons] at ih ⊢; rw [ih]
+
+theorem pairsOf_map (steps : List (String × α)) :
+    pairsOf (steps.map (fun s => (Cell.op s.1, Cell.arg s.2))) = some steps := by
+  induction steps with
+  | nil => rfl
+  | cons s r ih => simp only [pairsOf, List.map_cons, List.foldr_cons] at ih ⊢; rw [ih]
+
+/-- every sequence operation of `Path`, run on the flat ops tuple, is the same
+    operation on the list of steps -/
+theorem seqModel_eq_ref [DecidableEq α] (root : String) (steps : List (String × α))
+    (op : SeqOp α) : seqModel root steps op = seqRef root steps op := by
+  cases op with
+  | len => simp [seqModel, seqRef, pLen_flatOf]
+  | idx i =>
+    simp only [seqModel, seqRef, pGetIdx_flatOf]
+    cases pyIndexNat steps.length i with
+    | none => rfl
+    | some j =>
+      simp only
+      cases hs : steps[j]? with
+      | none => simp [resOfOps]
+      | some s => simp only [resOfOps, Option.map_some, unflat_flatOf]
+  | slice a b c =>
+    simp only [seqModel, seqRef, pGetSlice_flatOf]
+    cases pySlice steps a b c with
+    | none => rfl
+    | some st => simp [resOfOps, unflat_flatOf]
+  | values => simp [seqModel, seqRef, pValues_flatOf, argsOf_map]
+  | items => simp [seqModel, seqRef, pItems_flatOf, pairsOf_map]
+  | eq oroot other =>
+    simp only [seqModel, seqRef, pEq, flatOf_inj]
+  | startswith oroot other =>
+    simp only [seqModel, seqRef, pStartswith_flatOf]
+  | concat other =>
+    simp only [seqModel, seqRef, concatFlat, flatOf_eq]
+    by_cases hr : root = "T"
+    · subst hr
+      simp only [List.take_succ_cons, List.take_zero, and_self, if_true, List.drop_succ_cons,
+        List.drop_zero]
+      have : Cell.root "T" :: (flatCells steps ++ flatCells other) = flatOf "T" (steps ++ other) := by
+        simp [flatOf_eq, flatCells]
+      rw [this]
+      simp [resOfOps, unflat_flatOf]
+    · simp [hr, resOfOps]
+  | fromT =>
+    simp only [seqModel, seqRef, flatOf_eq]
+    by_cases hr : root = "S"
+    · subst hr
+      simp only [pFromT, beq_self_eq_true, if_true]
+      rw [← flatOf_eq, resOfOps, unflat_flatOf]
+    · have : pFromT (Cell.root root :: flatCells steps) = Cell.root root :: flatCells steps := by
+        unfold pFromT
+        split
+        · rename_i h; simp only [List.cons.injEq, Cell.root.injEq] at h; exact absurd h.1 hr
+        · rfl
+      rw [this, ← flatOf_eq, resOfOps, unflat_flatOf]
+      simp [hr]
+
+end seq
+
+/-! ### concatenation and C01's reference walk -/
+
+open Glom Glom.C01 in
+/-- walking `a ++ b` is walking `a`, then walking `b` from the value reached, with
+    `b`'s segments numbered after `a`'s -/
+theorem walk_append (env : TEnv) (h : Heap) :
+    ∀ (a b : List (String × Val)) (k : Nat) (t : Val),
+      walk env h (a ++ b) k t =
+        match walk env h a k t with
+        | .ok v => walk env h b (k + a.length) v
+        | .fail j e => .fail j e
+        | .unsupported => .unsupported := by
+  intro a
+  induction a with
+  | nil => intro b k t; simp [walk]
+  | cons s r ih =>
+    obtain ⟨op, arg⟩ := s
+    intro b k t
+    simp only [List.cons_append, walk, List.length_cons]
+    cases refAccess env h op t arg with
+    | none => rfl
+    | some res =>
+      cases res with
+      | error e => rfl
+      | ok v =>
+        simp only
+        rw [ih b (k + 1) v, show k + 1 + r.length = k + (r.length + 1) by omega]
+
+open Glom Glom.C01 in
+theorem wfSteps_append (a b : List (String × Val)) :
+    wfSteps (a ++ b) = (wfSteps a && wfSteps b) := by
+  induction a with
+  | nil => simp [wfSteps]
+  | cons s r ih =>
+    obtain ⟨op, arg⟩ := s
+    simp only [List.cons_append, wfSteps, ih, Bool.and_assoc]
+
+/-- renumber a failure of the second half of a concatenated path -/
+def shiftWalk (n : Nat) : Glom.C01.WalkRes → Glom.C01.WalkRes
+  | .fail j e => .fail (j + n) e
+  | w => w
+
+open Glom Glom.C01 in
+theorem walk_shift (env : TEnv) (h : Heap) :
+    ∀ (b : List (String × Val)) (k n : Nat) (t : Val),
+      walk env h b (k + n) t = shiftWalk n (walk env h b k t) := by
+  intro b
+  induction b with
+  | nil => intro k n t; rfl
+  | cons s r ih =>
+    obtain ⟨op, arg⟩ := s
+    intro k n t
+    simp only [walk]
+    cases refAccess env h op t arg with
+    | none => rfl
+    | some res =>
+      cases res with
+      | error e => rfl
+      | ok v =>
+        simp only
+        rw [show k + n + 1 = (k + 1) + n by omega, ih]
+
+/-! ### splitting and joining token lists -/
+
+section roundtrip
+variable {L : Type}
+
+theorem splitOn_noSep (p : Tok L → Bool) (toks : List (Tok L)) (h : ∀ t ∈ toks, p t = false) :
+    splitOn p toks = [toks] := by
+  induction toks with
+  | nil => rfl
+  | cons t r ih =>
+    simp only [splitOn, h t (by simp), Bool.false_eq_true, if_false]
+    rw [ih (fun x hx => h x (by simp [hx]))]
+
+theorem splitOn_append_sep (p : Tok L → Bool) (x : List (Tok L)) (sep : Tok L) (rest : List (Tok L))
+    (hx : ∀ t ∈ x, p t = false) (hsep : p sep = true) :
+    splitOn p (x ++ sep :: rest) = x :: splitOn p rest := by
+  induction x with
+  | nil => simp [splitOn, hsep]
+  | cons t r ih =>
+    simp only [List.cons_append, splitOn, hx t (by simp), Bool.false_eq_true, if_false]
+    rw [ih (fun y hy => hx y (by simp [hy]))]
+
+theorem splitOn_joinSep (p : Tok L → Bool) (sep : Tok L) (hsep : p sep = true) :
+    ∀ (pieces : List (List (Tok L))), pieces ≠ [] → (∀ x ∈ pieces, ∀ t ∈ x, p t = false) →
+      splitOn p (joinSep sep pieces) = pieces := by
+  intro pieces
+  induction pieces with
+  | nil => intro h; exact absurd rfl h
+  | cons x r ih =>
+    intro _ hp
+    cases r with
+    | nil => simpa [joinSep] using splitOn_noSep p x (hp x (by simp))
+    | cons y r' =>
+      simp only [joinSep]
+      rw [splitOn_append_sep p x sep _ (hp x (by simp)) hsep,
+        ih (by simp) (fun z hz => hp z (by simp [hz]))]
+
+theorem dropTrailingEmpty_of_last_ne {α} (pieces : List (List α))
+    (h : ∀ x, pieces.getLast? = some x → x ≠ []) : dropTrailingEmpty pieces = pieces := by
+  unfold dropTrailingEmpty
+  split
+  · rename_i heq; exact absurd rfl (h [] heq)
+  · rfl
+
+theorem allSome_map_some {α β} (f : α → Option β) (g : α → β) :
+    ∀ (xs : List α), (∀ x ∈ xs, f x = some (g x)) → allSome (xs.map f) = some (xs.map g) := by
+  intro xs
+  induction xs with
+  | nil => intro _; rfl
+  | cons x r ih =>
+    intro h
+    simp only [List.map_cons, h x (by simp), allSome]
+    rw [ih (fun y hy => h y (by simp [hy]))]
+
+/-! ### the top level of a formatted argument has no separators -/
+
+/-- not a separator (`,` `:`) and not a `k=` marker -/
+def Tok.isPlain : Tok L → Bool
+  | .comma | .colon | .kw _ => false
+  | _ => true
+
+theorem plain_not_comma {t : Tok L} (h : t.isPlain = true) : t.isComma = false := by
+  cases t <;> simp_all [Tok.isPlain, Tok.isComma]
+
+theorem plain_not_colon {t : Tok L} (h : t.isPlain = true) : t.isColon = false := by
+  cases t <;> simp_all [Tok.isPlain, Tok.isColon]
+
+theorem fmtStep_plain (F : FmtFacts) (s : Step L) : ∀ t ∈ fmtStep F s, t.isPlain = true := by
+  cases s <;> rw [fmtStep] <;> (try split) <;> simp [Tok.isPlain]
+
+theorem assemblePath_plain (xs : List (Step L × List (Tok L)))
+    (h : ∀ x ∈ xs, ∀ t ∈ x.2, t.isPlain = true) : ∀ t ∈ assemblePath xs, t.isPlain = true := by
+  unfold assemblePath
+  split
+  · rename_i g hg
+    intro t ht
+    simp only [List.mem_cons, List.mem_flatMap] at ht
+    rcases ht with rfl | ⟨x, hx, htx⟩
+    · rfl
+    · -- members of a group are members of xs
+      have hsub : ∀ (ys : List (Step L × List (Tok L))) (grp : List (Step L × List (Tok L))),
+          .inl grp ∈ groupSteps (fun x => x.1.isSeg) ys → ∀ y ∈ grp, y ∈ ys := by
+        intro ys
+        induction ys with
+        | nil => intro grp hm; simp [groupSteps] at hm
+        | cons y r ih =>
+          intro grp hm z hz
+          simp only [groupSteps] at hm
+          split at hm
+          · simp only [List.mem_cons, reduceCtorEq, false_or] at hm
+            exact List.mem_cons_of_mem _ (ih grp hm z hz)
+          · split at hm
+            · rename_i g' rest heq
+              simp only [List.mem_cons, Sum.inl.injEq] at hm
+              rcases hm with rfl | hm
+              · simp only [List.mem_cons] at hz
+                rcases hz with rfl | hz
+                · simp
+                · exact List.mem_cons_of_mem _ (ih g' (by rw [heq]; simp) z hz)
+              · exact List.mem_cons_of_mem _ (ih grp (by rw [heq]; simp [hm]) z hz)
+            · simp only [List.mem_cons, Sum.inl.injEq] at hm
+              rcases hm with rfl | hm
+              · simp only [List.mem_singleton] at hz; subst hz; simp
+              · exact List.mem_cons_of_mem _ (ih grp hm z hz)
+      exact h x (hsub xs g (by rw [hg]; simp) x hx) t htx
+  · intro t ht
+    simp only [List.mem_cons, List.mem_nil_iff, or_false] at ht
+    rcases ht with rfl | rfl <;> rfl
+
+theorem assembleT_plain (root : String) (xs : List (Step L × List (Tok L)))
+    (h : ∀ x ∈ xs, ∀ t ∈ x.2, t.isPlain = true) : ∀ t ∈ assembleT root xs, t.isPlain = true := by
+  unfold assembleT
+  split
+  · exact assemblePath_plain xs h
+  · intro t ht
+    simp only [List.mem_cons, List.mem_flatMap] at ht
+    rcases ht with rfl | ⟨x, hx, htx⟩
+    · rfl
+    · exact h x hx t htx
+
+theorem fmtArg_plain (F : FmtFacts) (a : Arg L) : ∀ t ∈ fmtArg F a, t.isPlain = true := by
+  cases a with
+  | lit v => rw [fmtArg]; simp [Tok.isPlain]
+  | t root steps =>
+    rw [fmtArg]
+    apply assembleT_plain
+    intro x hx t ht
+    simp only [List.mem_map] at hx
+    obtain ⟨s, _, rfl⟩ := hx
+    exact fmtStep_plain F s t ht
+
+theorem assemblePath_ne_nil (xs : List (Step L × List (Tok L))) : assemblePath xs ≠ [] := by
+  unfold assemblePath; split <;> simp
+
+theorem fmtArg_ne_nil (F : FmtFacts) (a : Arg L) : fmtArg F a ≠ [] := by
+  cases a with
+  | lit v => rw [fmtArg]; simp
+  | t root steps =>
+    rw [fmtArg]; unfold assembleT
+    split
+    · exact assemblePath_ne_nil _
+    · simp
+
+/-! ### unfolding the parser -/
+
+theorem isDunder_iff (n : Name) : isDunder n = true ↔ n = dunder ++ n.drop 2 := by
+  unfold isDunder
+  rw [List.isPrefixOf_iff_prefix]
+  constructor
+  · intro h
+    obtain ⟨t, rfl⟩ := h
+    simp [dunder]
+  · intro h; rw [h]; exact List.prefix_append _ _
+
+theorem parseSteps_nil : parseSteps ([] : List (Tok L)) = some [] := by rw [parseSteps]
+
+theorem parseSteps_dunder (s : Name) (r : List (Tok L)) :
+    parseSteps (.dot dunder :: .par [.str s] :: r) =
+      (parseSteps r).map (Step.attr (dunder ++ s) :: ·) := by
+  simp only [dunder]; rw [parseSteps]; rfl
+
+theorem parseSteps_star (r : List (Tok L)) :
+    parseSteps (.dot starName :: .par [] :: r) = (parseSteps r).map (Step.star :: ·) := by
+  simp only [starName]; rw [parseSteps]
+
+theorem parseSteps_starstar (r : List (Tok L)) :
+    parseSteps (.dot starstarName :: .par [] :: r) = (parseSteps r).map (Step.starstar :: ·) := by
+  simp only [starstarName]; rw [parseSteps]
+
+theorem parseSteps_dot (n : Name) (r : List (Tok L)) (hn : isDunder n = false) :
+    parseSteps (.dot n :: r) = (parseSteps r).map (Step.attr n :: ·) := by
+  have h1 : n ≠ ['_', '_'] := by intro h; subst h; simp [isDunder, dunder] at hn
+  have h2 : n ≠ ['_', '_', 's', 't', 'a', 'r', '_', '_'] := by
+    intro h; subst h; simp [isDunder, dunder] at hn
+  have h3 : n ≠ ['_', '_', 's', 't', 'a', 'r', 's', 't', 'a', 'r', '_', '_'] := by
+    intro h; subst h; simp [isDunder, dunder] at hn
+  rw [parseSteps]
+  · simp [hn]
+  all_goals (intros; simp_all)
+
+theorem parseSteps_br (ch r : List (Tok L)) :
+    parseSteps (.br ch :: r) = consOpt (parseIndex ch) (parseSteps r) := by
+  rw [parseSteps]
+
+theorem parseSteps_par (ch r : List (Tok L)) :
+    parseSteps (.par ch :: r) = consOpt (parseCall ch) (parseSteps r) := by
+  rw [parseSteps]
+
+theorem parseArg_lit (v : L) : parseArg [Tok.lit v] = some (.lit v) := by rw [parseArg]
+
+theorem parseArg_root (r : String) (rest : List (Tok L)) :
+    parseArg (.root r :: rest) = (parseSteps rest).map (Arg.t r) := by
+  rw [parseArg]
+  intro v h; simp at h
+
+theorem parseItem_def (toks : List (Tok L)) : parseItem toks =
+    match splitOn Tok.isColon toks with
+    | [p] => (parseArg p).map Item.one
+    | [a, b] =>
+      slice3 (if a.isEmpty then some none else (parseArg a).map some)
+             (if b.isEmpty then some none else (parseArg b).map some) (some none)
+    | [a, b, c] =>
+      slice3 (if a.isEmpty then some none else (parseArg a).map some)
+             (if b.isEmpty then some none else (parseArg b).map some)
+             (if c.isEmpty then some none else (parseArg c).map some)
+    | _ => none := by
+  rw [parseItem]
+  split <;> simp_all
+
+theorem parseIndex_def (toks : List (Tok L)) : parseIndex toks =
+    if isUnitTok toks then some (.items [])
+    else match splitOn Tok.isComma toks with
+      | [p] => (parseItem p).map Step.item
+      | _ => (allSome ((dropTrailingEmpty (splitOn Tok.isComma toks)).map parseItem)).map
+          Step.items := by
+  rw [parseIndex]
+  split
+  · rfl
+  · split <;> simp_all
+
+theorem parseCall_def (toks : List (Tok L)) : parseCall toks =
+    if toks.isEmpty then some (.call [] [])
+    else callOf (allSome ((dropTrailingEmpty (splitOn Tok.isComma toks)).map (fun p =>
+          (parseArg (stripKw p).2).map (fun a => ((stripKw p).1, a))))) := by
+  rw [parseCall]
+  rw [List.attach_map_val (l := dropTrailingEmpty (splitOn Tok.isComma toks))
+    (f := fun p => (parseArg (stripKw p).2).map (fun a => ((stripKw p).1, a)))]
+
+end roundtrip
 
 end Glom.C18
